@@ -6,8 +6,14 @@
    reached so far (the Go code has already written to the child cow at that point).
    ledger/apply/asset.go (AssetConfig, AssetTransfer with takeOut / putIn, AssetFreeze) over
    ledger/eval/cow_creatables.go and assetcow.go are transcribed as well.
-   Application calls, state proofs and heartbeats are NOT modelled in this version (kind
-   [BOther] = "unknown transaction type" error path only).  No proofs in this file. *)
+   Application calls: ledger/apply/application.go (create, opt-in, close-out, clear state,
+   delete), ledger/eval/appcow.go (StatefulEval with its child cow, Allocate/DeallocateApp,
+   setKey/delKey with the schema counters), ledger/eval/applications.go (NewBox / DelBox,
+   Perform for inner transactions).  The program itself is over-approximated: ANY finite script
+   of [appop]s followed by approve / reject (the AVM is C31-C35).  NOT modelled: inner
+   application calls (depth > 1), UpdateApplication, inner Rekey / keyreg, the AVM's fee-credit
+   test of inner groups and its resource-availability rules (the harness keeps inside them),
+   key / value length limits, state proofs and heartbeats.  No proofs in this file. *)
 From Coq Require Import NArith List Bool.
 From Verif.model Require Import Overflow EvalCow.
 Import ListNotations.
@@ -46,6 +52,23 @@ Definition m_del_holding (a i : N) : M unit :=
 Definition m_set_creatable (i : N) (v : option N) : M unit := fun c => (set_creatable c i v, Ok tt).
 Definition m_get_creator (i : N) : M (option N) := fun c => (c, Ok (get_creator c i)).
 Definition m_counter : M N := fun c => (c, Ok (counter c)).
+Definition m_get_appparams (a i : N) : M (option appparams) := fun c => (c, Ok (get_appparams c a i)).
+Definition m_get_applocal (a i : N) : M (option (N * N)) := fun c => (c, Ok (get_applocal c a i)).
+Definition m_put_appparams (a i : N) (p : appparams) : M unit := fun c => (put_appparams_delta c a i (DSome p), Ok tt).
+Definition m_put_applocal (a i : N) (s : N * N) : M unit := fun c => (put_applocal_delta c a i (DSome s), Ok tt).
+Definition m_del_appparams (a i : N) : M unit :=
+  fun c => if in_mods c a then (put_appparams_delta c a i DDel, Ok tt) else (c, Err E_APPLY).
+Definition m_del_applocal (a i : N) : M unit :=
+  fun c => if in_mods c a then (put_applocal_delta c a i DDel, Ok tt) else (c, Err E_APPLY).
+Definition m_set_app_creatable (i : N) (v : option N) : M unit := fun c => (set_app_creatable c i v, Ok tt).
+Definition m_get_app_creator (i : N) : M (option N) := fun c => (c, Ok (get_app_creator c i)).
+Definition m_allocated (a i : N) (g : bool) : M bool := fun c => (c, Ok (allocated c a i g)).
+Definition m_getkey (a i : N) (g : bool) (key : N) : M (option (option bool)) := fun c => (c, Ok (getkey c a i g key)).
+Definition m_ensure_sd (a i : N) (g : bool) (action : N) : M sdelta := fun c => (c, Ok (ensure_sd c a i g action)).
+Definition m_put_sd (a i : N) (g : bool) (sd : sdelta) : M unit := fun c => (put_sd c a i g sd, Ok tt).
+Definition m_get_box (app name : N) : M (option N) := fun c => (c, Ok (get_box c app name)).
+Definition m_put_box (app name : N) (v : option N) : M unit := fun c => (put_box c app name v, Ok tt).
+Definition m_inctxn : M unit := fun c => (inc_txncount c, Ok tt).
 
 Notation "x <- m ;; k" := (bind m (fun x => k)) (at level 61, m at next level, right associativity).
 Notation "m ;;; k" := (bind m (fun _ => k)) (at level 61, right associativity).
@@ -65,7 +88,38 @@ Record env := mkEnv {
   e_generate : bool
 }.
 
+(* transaction bodies an application can issue as inner transactions in this model *)
+Inductive sbody :=
+| SPay (rcv amt closeto : N)
+| SAcfg (asset : N) (p : aparams)
+| SAxfer (asset amt asender rcv closeto : N)
+| SAfrz (asset acct : N) (frozen : bool).
+
+(* what an application program can do to the ledger (the LedgerForLogic surface): a program is
+   ANY finite list of these followed by approve / reject; [OFail] is any failing instruction
+   (err, a failed assert, budget exhaustion, an unavailable resource).  Box names and state
+   keys are identifiers, [nlen] is the length of the box name; values are not modelled (C23). *)
+Inductive appop :=
+| OBoxCreate (name nlen size : N)
+| OBoxDel (name nlen : N)
+| OBoxResize (name nlen size : N)
+| OGPut (key : N) (isbytes : bool)
+| OGDel (key : N)
+| OLPut (acct key : N) (isbytes : bool)
+| OLDel (acct key : N)
+| OInner (g : list (N * sbody))          (* itxn_begin .. itxn_submit: (fee, body) from the app account *)
+| OFail.
+
+(* an application call: ApplicationID (0 = create), OnCompletion (0 NoOp, 1 OptIn, 2 CloseOut,
+   3 ClearState, 5 DeleteApplication; 4 UpdateApplication is not modelled), the schemas / extra
+   pages of a creation, and the program run as a script with its verdict *)
+Record appcall := mkCall {
+  ac_app : N; ac_oc : N; ac_gs : N * N; ac_ls : N * N; ac_pages : N;
+  ac_script : list appop; ac_accept : bool
+}.
+
 Inductive body :=
+| BApp (call : appcall)
 | BPay (rcv amt closeto : N)
 | BKeyreg (votepk selpk sppk vfirst vlast vkd : N) (nonpart : bool)
 | BAcfg (asset : N) (p : aparams)
@@ -301,12 +355,246 @@ Definition asset_freeze (sender asset acct : N) (frozen : bool) : M unit :=
   hh <- some_or_fail h ;;
   m_put_holding acct asset (mkH (h_amount hh) frozen).
 
+(* ------------------------------------------------------------------ applications *)
+(* appcow.go AllocateApp / DeallocateApp *)
+Definition allocate_app (a i : N) (global : bool) (space : N * N) : M unit :=
+  al <- m_allocated a i global ;;
+  guard (negb al) E_APPLY ;;;
+  sd <- m_ensure_sd a i global 2 ;;
+  m_put_sd a i global (mkSD 2 (sd_kv sd) (sd_counts sd) space) ;;;
+  when global (m_set_app_creatable i (Some a)).
+
+Definition deallocate_app (a i : N) (global : bool) : M unit :=
+  al <- m_allocated a i global ;;
+  guard al E_APPLY ;;;
+  m_put_sd a i global (mkSD 3 [] (0, 0) (0, 0)) ;;;
+  when global (m_set_app_creatable i None).
+
+(* appcow.go setKey / delKey (key and value length limits are not modelled) *)
+Definition set_key (a i : N) (global : bool) (key : N) (isbytes : bool) : M unit :=
+  al <- m_allocated a i global ;;
+  guard al E_APPLY ;;;
+  old <- m_getkey a i global key ;;
+  oldv <- some_or_fail old ;;
+  sd <- m_ensure_sd a i global 1 ;;
+  let sd' := mkSD (sd_action sd) (aupsert key (Some isbytes) (sd_kv sd))
+                  (update_counts (sd_counts sd) oldv (Some isbytes)) (sd_max sd) in
+  m_put_sd a i global sd' ;;;
+  guard (counts_ok sd') E_APPLY.
+
+Definition del_key (a i : N) (global : bool) (key : N) : M unit :=
+  al <- m_allocated a i global ;;
+  guard al E_APPLY ;;;
+  old <- m_getkey a i global key ;;
+  oldv <- some_or_fail old ;;
+  sd <- m_ensure_sd a i global 1 ;;
+  m_put_sd a i global (mkSD (sd_action sd) (aupsert key None (sd_kv sd))
+                            (update_counts (sd_counts sd) oldv None) (sd_max sd)).
+
+(* applications.go NewBox / DelBox: the counters of the application account *)
+Definition new_box (E : env) (app name nlen size : N) : M unit :=
+  guard (nlen <=? p_maxkeylen (e_P E)) E_APPLY ;;;
+  guard (negb (nlen =? 0)) E_APPLY ;;;
+  guard (size <=? p_maxboxsize (e_P E)) E_APPLY ;;;
+  ex <- m_get_box app name ;;
+  guard (match ex with Some _ => false | None => true end) E_APPLY ;;;
+  record <- m_lookup (app_addr app) ;;
+  m_put (app_addr app) (set_box_counts record (addsat 64 (a_boxes record) 1)
+                                       (addsat 64 (a_boxbytes record) ((nlen + size) mod 2 ^ 64))) ;;;
+  m_put_box app name (Some size).
+
+Definition del_box (app name nlen : N) : M bool :=
+  ex <- m_get_box app name ;;
+  match ex with
+  | None => ret false
+  | Some size =>
+    record <- m_lookup (app_addr app) ;;
+    m_put (app_addr app) (set_box_counts record (subsat 64 (a_boxes record) 1)
+                                         (subsat 64 (a_boxbytes record) ((nlen + size) mod 2 ^ 64))) ;;;
+    m_put_box app name None ;;;
+    ret true
+  end.
+
+(* logic/box.go lengthChecks *)
+Definition length_checks (E : env) (nlen size : N) : M unit :=
+  guard (negb (nlen =? 0)) E_APPLY ;;;
+  guard (nlen <=? p_maxkeylen (e_P E)) E_APPLY ;;;
+  guard (size <=? p_maxboxsize (e_P E)) E_APPLY.
+
+(* the non-application transaction bodies, shared by applyTransaction and Perform *)
+Definition apply_sbody (E : env) (sender : N) (b : sbody) (ad : adata) (ctr : N) : M adata :=
+  match b with
+  | SPay rcv amt closeto => payment E sender rcv amt closeto ad
+  | SAcfg asset cp => asset_config E sender asset cp ctr ;;; ret ad
+  | SAxfer asset amt asender rcv closeto => asset_transfer E sender asset amt asender rcv closeto ;;; ret ad
+  | SAfrz asset acct frozen => asset_freeze sender asset acct frozen ;;; ret ad
+  end.
+
+(* applications.go Perform for one inner transaction sent by the application account
+   (inner Rekey is not modelled): takeFee, incTxnCount, then the body with the new Counter *)
+Definition perform (E : env) (app : N) (fee : N) (b : sbody) : M unit :=
+  let itx := mkTxn (app_addr app) fee 0 0 0 true true (app_addr app) 0 0 0 0 BOther in
+  ad <- take_fee E itx ad0 ;;
+  m_inctxn ;;;
+  ctr <- m_counter ;;
+  _ <- apply_sbody E (app_addr app) b ad ctr ;;
+  ret tt.
+
+Fixpoint perform_group (E : env) (app : N) (g : list (N * sbody)) : M unit :=
+  match g with
+  | [] => ret tt
+  | (fee, b) :: r => perform E app fee b ;;; perform_group E app r
+  end.
+
+(* one instruction of the program of application [app] called by [sender] *)
+Definition run_op (E : env) (app : N) (clear : bool) (op : appop) : M unit :=
+  match op with
+  | OBoxCreate name nlen size =>
+    length_checks E nlen size ;;;
+    guard (negb clear) E_APPLY ;;;     (* "boxes may not be accessed from ClearState program" *)
+    ex <- m_get_box app name ;;
+    match ex with
+    | Some old => guard (old =? size) E_APPLY
+    | None => new_box E app name nlen size
+    end
+  | OBoxDel name nlen =>
+    length_checks E nlen 0 ;;;
+    guard (negb clear) E_APPLY ;;;
+    _ <- del_box app name nlen ;; ret tt
+  | OBoxResize name nlen size =>
+    length_checks E nlen size ;;;
+    guard (negb clear) E_APPLY ;;;
+    ex <- m_get_box app name ;;
+    guard (match ex with Some _ => true | None => false end) E_APPLY ;;;
+    _ <- del_box app name nlen ;;
+    new_box E app name nlen size
+  | OGPut key isbytes =>
+    cr <- m_get_app_creator app ;;
+    creator <- some_or_fail cr ;;
+    set_key creator app true key isbytes
+  | OGDel key =>
+    cr <- m_get_app_creator app ;;
+    creator <- some_or_fail cr ;;
+    del_key creator app true key
+  | OLPut acct key isbytes => set_key acct app false key isbytes
+  | OLDel acct key => del_key acct app false key
+  | OInner g =>
+    guard (negb clear) E_APPLY ;;;     (* IsolateClearState: "clear state programs can not issue inner transactions" *)
+    guard (match g with [] => false | _ => true end) E_APPLY ;;; perform_group E app g
+  | OFail => fail E_APPLY
+  end.
+
+Fixpoint run_script (E : env) (app : N) (clear : bool) (script : list appop) : M unit :=
+  match script with
+  | [] => ret tt
+  | op :: r => run_op E app clear op ;;; run_script E app clear r
+  end.
+
+(* appcow.go StatefulEval: the program runs in a child of the transaction's cow ("calf");
+   only an approving program is committed; the calf is recycled in every case *)
+Definition stateful_eval (E : env) (app : N) (clear : bool) (script : list appop) (accept : bool) : M bool :=
+  fun c => match run_script E app clear script (child c) with
+           | (c1, Err e) => (recycle c1, Err e)
+           | (c1, Ok _) => if accept then (commit c1, Ok true) else (recycle c1, Ok false)
+           end.
+
+Definition schema_add (x y : N * N) : N * N := (addsat 64 (fst x) (fst y), addsat 64 (snd x) (snd y)).
+Definition schema_sub (x y : N * N) : N * N := (subsat 64 (fst x) (fst y), subsat 64 (snd x) (snd y)).
+Definition acct_schema (x : acct) : N * N := (a_schema_u x, a_schema_b x).
+Definition with_app_counts (x : acct) (sch : N * N) (pages appparams applocals : N) : acct :=
+  set_app_counts x (fst sch) (snd sch) pages appparams applocals.
+
+(* apply/application.go createApplication *)
+Definition create_application (E : env) (creator : N) (call : appcall) (ctr : N) : M N :=
+  record <- m_lookup creator ;;
+  guard (negb ((0 <? p_maxappscreated (e_P E)) && (p_maxappscreated (e_P E) <=? a_appparams record))) E_APPLY ;;;
+  let idx := (ctr + 1) mod 2 ^ 64 in
+  present <- m_get_appparams creator idx ;;
+  guard (match present with Some _ => false | None => true end) E_APPLY ;;;
+  m_put creator (with_app_counts record (schema_add (acct_schema record) (ac_gs call))
+                                 (addsat 32 (a_extrapages record) (ac_pages call))
+                                 (addsat 64 (a_appparams record) 1) (a_applocals record)) ;;;
+  m_put_appparams creator idx (mkApp (ac_gs call) (ac_ls call) (ac_pages call) 0) ;;;
+  allocate_app creator idx true (ac_gs call) ;;;
+  ret idx.
+
+Definition optin_application (E : env) (sender app : N) (params : appparams) : M unit :=
+  record <- m_lookup sender ;;
+  has <- m_get_applocal sender app ;;
+  guard (match has with Some _ => false | None => true end) E_APPLY ;;;
+  guard (negb ((0 <? p_maxappsoptedin (e_P E)) && (p_maxappsoptedin (e_P E) <=? a_applocals record))) E_APPLY ;;;
+  m_put sender (with_app_counts record (schema_add (acct_schema record) (app_ls params))
+                                (a_extrapages record) (a_appparams record) (addsat 64 (a_applocals record) 1)) ;;;
+  m_put_applocal sender app (app_ls params) ;;;
+  allocate_app sender app false (app_ls params).
+
+Definition closeout_application (sender app : N) : M unit :=
+  record <- m_lookup sender ;;
+  guard (negb (a_applocals record =? 0)) E_APPLY ;;;
+  ls <- m_get_applocal sender app ;;
+  schema <- some_or_fail ls ;;
+  m_put sender (with_app_counts record (schema_sub (acct_schema record) schema)
+                                (a_extrapages record) (a_appparams record) (subsat 64 (a_applocals record) 1)) ;;;
+  m_del_applocal sender app ;;;
+  deallocate_app sender app false.
+
+Definition delete_application (E : env) (creator app : N) : M unit :=
+  p <- m_get_appparams creator app ;;
+  (* GetAppParams' "not found" is ignored by the Go code: zero params *)
+  let params := match p with Some x => x | None => mkApp (0, 0) (0, 0) 0 0 end in
+  record <- m_lookup creator ;;
+  m_put creator (with_app_counts record (acct_schema record) (a_extrapages record)
+                                 (subsat 64 (a_appparams record) 1) (a_applocals record)) ;;;
+  let sponsor := if app_sponsor params =? 0 then creator else app_sponsor params in
+  record2 <- m_lookup sponsor ;;
+  m_put sponsor (with_app_counts record2 (schema_sub (acct_schema record2) (app_gs params))
+                                 (if p_properpages (e_P E) then subsat 32 (a_extrapages record2) (app_pages params)
+                                  else a_extrapages record2)
+                                 (a_appparams record2) (a_applocals record2)) ;;;
+  m_del_appparams creator app ;;;
+  deallocate_app creator app true.
+
+(* apply/application.go ApplicationCall (program checks of create / update are assumed to
+   pass: the programs are the harness's interpreter) *)
+Definition application_call (E : env) (sender : N) (call : appcall) (ctr : N) : M unit :=
+  app <- (if ac_app call =? 0 then create_application E sender call ctr else ret (ac_app call)) ;;
+  cr <- m_get_app_creator app ;;
+  p <- (match cr with
+        | None => ret None
+        | Some creator => pp <- m_get_appparams creator app ;; x <- some_or_fail pp ;; ret (Some (x, creator))
+        end) ;;
+  guard (match p with Some _ => true | None => ac_oc call =? 3 end) E_APPLY ;;;
+  if ac_oc call =? 3 then
+    has <- m_get_applocal sender app ;;
+    guard (match has with Some _ => true | None => false end) E_APPLY ;;;
+    (* a failing or rejecting ClearStateProgram is ignored: its calf is simply dropped *)
+    (match p with
+     | None => ret tt
+     | Some _ => fun c => match stateful_eval E app true (ac_script call) (ac_accept call) c with
+                          | (c1, _) => (c1, Ok tt)
+                          end
+     end) ;;;
+    closeout_application sender app
+  else
+    match p with
+    | None => fail E_APPLY
+    | Some (params, creator) =>
+      when (ac_oc call =? 1) (optin_application E sender app params) ;;;
+      approved <- stateful_eval E app false (ac_script call) (ac_accept call) ;;
+      guard approved E_APPLY ;;;
+      if (ac_oc call =? 0) || (ac_oc call =? 1) then ret tt
+      else if ac_oc call =? 2 then closeout_application sender app
+      else if ac_oc call =? 5 then delete_application E creator app
+      else fail E_APPLY
+    end.
+
 (* ------------------------------------------------------------------ applyTransaction *)
 (* [ctr] = cow.Counter() taken by transaction() before the call *)
 Definition apply_transaction (E : env) (tx : txn) (ctr : N) : M adata :=
   ad <- take_fee E tx ad0 ;;
   rekey tx ;;;
   match t_body tx with
+  | BApp call => application_call E (t_sender tx) call ctr ;;; ret ad
   | BPay rcv amt closeto => payment E (t_sender tx) rcv amt closeto ad
   | BKeyreg vpk spk sppk vf vl vkd np => keyreg E (t_sender tx) (t_fee tx) vpk spk sppk vf vl vkd np ;;; ret ad
   | BAcfg asset cp => asset_config E (t_sender tx) asset cp ctr ;;; ret ad
